@@ -203,14 +203,16 @@ def aggparam_decode_rules(ctx, rule):
         pass
 
 
-def order_rules(ctx, rule="R-C07.O", floor=11):
+def order_rules(ctx, rule="R-C07.O", floor=8):
     """writer and reader agree on the ORDER of the fields: for every struct - and every struct-like enum variant - with an
     Encode impl and a Decode / ParameterizedDecode impl, the sequence of fields written (calls that take the output buffer,
     attributed to the field of `self` they mention, or that the enclosing loop iterates) equals the sequence of fields read
     (calls that take the cursor, attributed to the field of the struct literal their result flows into - by MIR local, i.e.
     by call site - directly, through `?`/conversions, or through `v.push(..)`).  The types agree by construction: a field can
     only be initialised from a value of its own type.  Variants are separated by the variant test that dominates the writer
-    and by the literal the reader reaches; codecs whose calls are still not totally ordered are skipped."""
+    and by the literal the reader reaches; codecs whose calls are still not totally ordered are skipped (the rule is partial by
+    design: 11 of 39 codecs are decided on the reviewed tree; the floor of 8 tolerates a refactoring that makes a few more
+    undecidable, while a wholesale loss of instances still fails closed)."""
     prog = ctx.prog
     n = 0
     skipped = []
@@ -316,6 +318,111 @@ def order_rules(ctx, rule="R-C07.O", floor=11):
     return n, sorted(set(skipped))
 
 
+def tag_rules(ctx, rule="R-C07.T", floor=6, refusal_only=False):
+    """writer and reader of every tagged enum agree on an injective, complete tag table; every other byte value is refused.
+    With refusal_only (C08) only the refusal of unknown tags is reported."""
+    prog = ctx.prog
+    # ---------------- R-C07.T tag tables
+    tagged = [("vdaf::poplar1::SketchState", "decode_with_param"), ("vdaf::poplar1::VerifierStateVariant", "decode_with_param"),
+              ("topology::ping_pong::PingPongMessage", "decode")]
+    for adt, dname in tagged:
+        try:
+            fe = ctx.fn(rule, name="encode", trait="Encode", self_adt=adt)
+            fd = ctx.fn(rule, name=dname, self_adt=adt)
+        except Skip:
+            continue
+        ge, gd = ctx.guards(fe), ctx.guards(fd)
+        # encode: variant -> first u8 literal encoded under that variant
+        enc_map = {}
+        for bi, t in fe.body.calls():
+            if t.callee.name == "encode" and (t.callee.rfull or "").startswith("<u8 as codec::Encode>"):
+                ce = ge.eb.call_expr(t)
+                v = ce[2][0]
+                conds = block_conditions(ge, bi)
+                vs = [c[2] for c in conds if c[0] == "variant" and c[3] and Arg(1)(c[1])]
+                if vs and Lit()(v):
+                    enc_map.setdefault(vs[0], set()).add(v[1] if v[0] == "lit" else v[2])
+                elif v[0] == "phi":
+                    # `let tag: u8 = match self { A(..) => 0, B(..) => 1 }; tag.encode(bytes)?`: the written tag per variant is the
+                    # literal assigned under that variant
+                    from guards import phi_defs
+                    for (de, dconds, dbi) in phi_defs(ge, v[1]):
+                        dvs = [c[2] for c in dconds if c[0] == "variant" and c[3] and Arg(1)(c[1])]
+                        if dvs and Lit()(de):
+                            enc_map.setdefault(dvs[0], set()).add(de[1] if de[0] == "lit" else de[2])
+                        else:
+                            enc_map.setdefault("?", set()).add(fmt(de)[:40])
+        # decode: tag -> constructed variant
+        dec_map = {}
+        for bi, si, s in fd.body.iter_stmts():
+            if s.rv is not None and s.rv.kind == "agg" and s.rv.agg == "adt" and s.rv.path == adt:
+                tags = [c[2] for c in block_conditions(gd, bi) if c[0] == "inteq"]
+                if tags:
+                    dec_map.setdefault(s.rv.vname, set()).add(tags[0])
+        # ... or built by handing the variant constructor to a combinator: `decode(..).map(Self::Inner)`
+        for bi, t in fd.body.calls():
+            if t.callee.name in ("map", "and_then") and len(t.args) == 2:
+                a1 = gd.eb.operand(t.args[1])
+                if a1[0] == "fnref" and str(a1[1]).startswith(adt + "::"):
+                    tags = [c[2] for c in block_conditions(gd, bi) if c[0] == "inteq"]
+                    if tags:
+                        dec_map.setdefault(str(a1[1]).split("::")[-1], set()).add(tags[0])
+        # ... or selected by comparisons on the tag rather than by a `match` on literals (`if tag > 2 { Err } .. if tag == 0 {A} else
+        # if tag == 1 {B} else {C}`): decide by value - for every byte value, which variant literals are reachable
+        sim_refused = None
+        if set(dec_map) != set(v["n"] for v in (prog.adt_by_path.get(adt) or {}).get("variants", [])):
+            tagp = lambda e: isinstance(e, tuple) and ThroughCasts(Or(Try(Call("decode", Arg(fd.body.argc))), Call("decode", Arg(fd.body.argc))))(e)
+            reach, lits, any_branch = ctx.value_walker(fd, tagp)
+            if any_branch:
+                cons = {}
+                for bi, si, s2 in fd.body.iter_stmts():
+                    if s2.rv is not None and s2.rv.kind == "agg" and s2.rv.agg == "adt" and s2.rv.path == adt:
+                        cons.setdefault(bi, set()).add(s2.rv.vname)
+                retk = {}
+                for rd in gd.retdefs:
+                    retk.setdefault(rd.block, set()).add(rd.kind)
+                dec_map, sim_refused = {}, True
+                for v in range(256):
+                    blocks = reach(v)
+                    vs = set(x for bi in blocks for x in cons.get(bi, ()))
+                    kinds = set(x for bi in blocks for x in retk.get(bi, ()))
+                    if len(vs) == 1 and kinds - {"err"}:
+                        dec_map.setdefault(next(iter(vs)), set()).add(v)
+                    elif vs or (kinds - {"err"}):
+                        dec_map.setdefault("?", set()).add(v)
+                    # else: refused
+                known_tags = set(x for s3 in enc_map.values() for x in s3)
+                for v in range(256):
+                    if v not in known_tags:
+                        blocks = reach(v)
+                        kinds = set(x for bi in blocks for x in retk.get(bi, ()))
+                        if not kinds or (kinds - {"err"}):
+                            sim_refused = False
+        key = "%s:%s:tag-table" % (rule, adt)
+        adt_def = prog.adt_by_path.get(adt)
+        variants = [v["n"] for v in adt_def["variants"]] if adt_def else []
+        if refusal_only:
+            pass
+        elif enc_map and enc_map == dec_map and all(len(s) == 1 for s in enc_map.values()) and sorted(enc_map) == sorted(variants) and \
+                len(set(next(iter(s)) for s in enc_map.values())) == len(variants):
+            ctx.ok(rule, key, "encode writes and decode reads the same injective tag table %s" % {k: sorted(v) for k, v in enc_map.items()}, loc=fd.loc,
+                   sample={"rule": rule, "type": adt, "tags": {k: sorted(v) for k, v in enc_map.items()}})
+        else:
+            ctx.bad(rule, key, "tag tables differ or are not injective/complete: encode %s, decode %s, variants %s" % (
+                {k: sorted(v) for k, v in enc_map.items()}, {k: sorted(v) for k, v in dec_map.items()}, variants), loc=fd.loc)
+        # unknown tags refused
+        key = "%s:%s:unknown-tag-refused" % (rule, adt)
+        oth = [e for e in gd.edges if e.cond[0] == "intother"]
+        if sim_refused:
+            ctx.ok(rule, key, "every byte value outside the tag table reaches only Err (decided by value over the comparisons on the tag)", loc=fd.loc)
+        elif oth and all(set(rd.kind for rd in e.leads) <= {"err"} and e.leads for e in oth):
+            ctx.ok(rule, key, "every tag outside %s leads to Err" % sorted(oth[0].cond[2]), loc=fd.loc)
+        else:
+            ctx.bad(rule, key, "unknown tags are not refused", loc=fd.loc)
+    ctx.floor(rule, floor)
+
+
+
 def run(ctx):
     prog = ctx.prog
     sy = S.Sym(prog)
@@ -374,52 +481,7 @@ def run(ctx):
     # ---------------- R-C07.O field order
     order_rules(ctx)
 
-    # ---------------- R-C07.T tag tables
-    rule = "R-C07.T"
-    tagged = [("vdaf::poplar1::SketchState", "decode_with_param"), ("vdaf::poplar1::VerifierStateVariant", "decode_with_param"),
-              ("topology::ping_pong::PingPongMessage", "decode")]
-    for adt, dname in tagged:
-        try:
-            fe = ctx.fn(rule, name="encode", trait="Encode", self_adt=adt)
-            fd = ctx.fn(rule, name=dname, self_adt=adt)
-        except Skip:
-            continue
-        ge, gd = ctx.guards(fe), ctx.guards(fd)
-        # encode: variant -> first u8 literal encoded under that variant
-        enc_map = {}
-        for bi, t in fe.body.calls():
-            if t.callee.name == "encode" and (t.callee.rfull or "").startswith("<u8 as codec::Encode>"):
-                ce = ge.eb.call_expr(t)
-                v = ce[2][0]
-                conds = block_conditions(ge, bi)
-                vs = [c[2] for c in conds if c[0] == "variant" and c[3] and Arg(1)(c[1])]
-                if vs and Lit()(v):
-                    enc_map.setdefault(vs[0], set()).add(v[1] if v[0] == "lit" else v[2])
-        # decode: tag -> constructed variant
-        dec_map = {}
-        for bi, si, s in fd.body.iter_stmts():
-            if s.rv is not None and s.rv.kind == "agg" and s.rv.agg == "adt" and s.rv.path == adt:
-                tags = [c[2] for c in block_conditions(gd, bi) if c[0] == "inteq"]
-                if tags:
-                    dec_map.setdefault(s.rv.vname, set()).add(tags[0])
-        key = "%s:%s:tag-table" % (rule, adt)
-        adt_def = prog.adt_by_path.get(adt)
-        variants = [v["n"] for v in adt_def["variants"]] if adt_def else []
-        if enc_map and enc_map == dec_map and all(len(s) == 1 for s in enc_map.values()) and sorted(enc_map) == sorted(variants) and \
-                len(set(next(iter(s)) for s in enc_map.values())) == len(variants):
-            ctx.ok(rule, key, "encode writes and decode reads the same injective tag table %s" % {k: sorted(v) for k, v in enc_map.items()}, loc=fd.loc,
-                   sample={"rule": rule, "type": adt, "tags": {k: sorted(v) for k, v in enc_map.items()}})
-        else:
-            ctx.bad(rule, key, "tag tables differ or are not injective/complete: encode %s, decode %s, variants %s" % (
-                {k: sorted(v) for k, v in enc_map.items()}, {k: sorted(v) for k, v in dec_map.items()}, variants), loc=fd.loc)
-        # unknown tags refused
-        key = "%s:%s:unknown-tag-refused" % (rule, adt)
-        oth = [e for e in gd.edges if e.cond[0] == "intother"]
-        if oth and all(set(rd.kind for rd in e.leads) <= {"err"} and e.leads for e in oth):
-            ctx.ok(rule, key, "every tag outside %s leads to Err" % sorted(oth[0].cond[2]), loc=fd.loc)
-        else:
-            ctx.bad(rule, key, "unknown tags are not refused", loc=fd.loc)
-    ctx.floor(rule, 6)
+    tag_rules(ctx)
 
     # ---------------- R-C07.C canonical-form guards
     rule = "R-C07.C"
@@ -550,10 +612,14 @@ def run(ctx):
     try:
         f = ctx.fn(rule, name="decode_fixlen_items", id_re=r"^codec::decode_fixlen_items$")
         g = ctx.guards(f)
-        ctx.require_guard(rule, f, "Gt", Field(Call("overflowing_add"), "0"), Len(Any()), desc="position + length > len(buffer) -> Err")
+        pos_len = lambda c: Call(c, ThroughCasts(Call("position", Arg(3))), Arg(1))          # position + length, either operand order
+        total = Or(Field(pos_len("overflowing_add"), "0"), Field(pos_len("checked_add"), name="0", variant="Some"))
+        ctx.require_guard(rule, f, "Gt", total, Len(Any()), desc="position + length > len(buffer) -> Err")
         key = "%s:%s:overflow-refused" % (rule, f.id)
-        ov = [e for e in g.edges if e.cond[0] == "truth" and e.cond[2] is True and Field(Call("overflowing_add"), "1")(e.cond[1])
+        ov = [e for e in g.edges if e.cond[0] == "truth" and e.cond[2] is True and Field(pos_len("overflowing_add"), "1")(e.cond[1])
               and set(rd.kind for rd in e.leads) == {"err"}]
+        ov += [e for e in g.edges if e.cond[0] == "variant" and e.cond[2] == "None" and e.cond[3] and pos_len("checked_add")(e.cond[1])
+               and set(rd.kind for rd in e.leads) == {"err"}]
         if ov:
             ctx.ok(rule, key, "position + length overflow -> Err", loc=f.loc)
         else:
